@@ -97,7 +97,7 @@ def parser_cases(run, drv):
         cases.append(("list", bytes.fromhex(texts[2 * i + 1]), set_text(v), "printed"))
     valid = [c for c in cases if c[3] == "printed"]
     # files larger than the initial read buffer of hwloc__read_fd (page size, then doubled)
-    for nchunks in (454, 455, 456, 457, 910, 911, 912, 1400, 2000):
+    for nchunks in (454, 455, 456, 457, 910, 911, 912, 1400):
         v = rng.getrandbits(32 * nchunks) | (1 << (32 * nchunks - 1))
         body = ",".join("%08x" % ((v >> (32 * k)) & 0xffffffff) for k in range(nchunks - 1, -1, -1))
         cases.append(("mask", (body + "\n").encode(), set_text(v), "bigfile"))
@@ -117,6 +117,8 @@ def parser_cases(run, drv):
         cases.append(("mask", b, None, "curated"))
     for b in G.CURATED_LIST:
         cases.append(("list", b, None, "curated"))
+    for b, cheap in G.CURATED_LIST_UB:
+        cases.append(("list", b, None, "curated-ub" if cheap else "curated-ub-nomodel"))
     nmal = 400 if quick else 6000
     for i in range(nmal):
         if rng.random() < 0.5:
@@ -187,14 +189,27 @@ def crash_key(rc, err):
 def check_parsers(run, par, drv, only=None):
     cases = only if only is not None else parser_cases(run, drv)
     lines = [case_line(k, b) for k, b, _, _ in cases]
-    rc, out, err = C.sh([drv, "parse"], input=("\n".join(lines) + "\n").encode(), timeout=1800)
-    if rc != 0:
-        raise RuntimeError("model driver failed: " + err.decode(errors="replace")[-2000:])
     model = {}
-    for l in out.decode().split("\n"):
-        m = re.match(r"(mask|list) (\d+) (.*)$", l)
-        if m:
-            model[int(m.group(2))] = "%s %s" % (m.group(1), m.group(3))
+
+    def run_model(idx):
+        rc, out, err = C.sh([drv, "parse"], input=("\n".join(lines[i] for i in idx) + "\n").encode(), timeout=1800)
+        if rc != 0:
+            raise RuntimeError("model driver failed (rc=%d) on a shard starting with %s: %s" % (rc, lines[idx[0]][:80], err.decode(errors="replace")[-2000:]))
+        res = {}
+        for l in out.decode().split("\n"):
+            m = re.match(r"(mask|list) (\d+) (.*)$", l)
+            if m:
+                res[idx[int(m.group(2))]] = "%s %s" % (m.group(1), m.group(3))
+        return res
+    # longest inputs spread first over the shards
+    order = sorted((i for i in range(len(lines)) if cases[i][3] != "curated-ub-nomodel"), key=lambda i: -len(lines[i]))
+    for i in range(len(lines)):
+        if cases[i][3] == "curated-ub-nomodel":
+            model[i] = "list ub"
+    mshards = [order[k::C.NCPU] for k in range(C.NCPU) if order[k::C.NCPU]]
+    with cf.ThreadPoolExecutor(max_workers=C.NCPU) as ex:
+        for r in ex.map(run_model, mshards):
+            model.update(r)
     # C side in parallel shards; cases on which the model predicts undefined behaviour run alone
     ub = [i for i in range(len(cases)) if model.get(i, "").endswith(" ub")]
     normal = [i for i in range(len(cases)) if i not in set(ub)]
@@ -207,8 +222,6 @@ def check_parsers(run, par, drv, only=None):
                 cres[i] = r.get(j)
                 if (j, "err") in r:
                     cres[(i, "err")] = r[(j, "err")]
-    for kind, b, exp, label in cases:
-        pass
     for i, (kind, b, exp, label) in enumerate(cases):
         if i in ub:
             continue
@@ -285,7 +298,9 @@ class Snap:
 
 
 class Pool:
-    """Scratch copies of snapshots (one tarball may be unpacked several times for parallel workers)."""
+    """Scratch copies of snapshots under $TMPDIR.  A tarball may be unpacked several times for parallel
+    workers, fewer times the more files it holds (file creation/deletion dominates on big snapshots);
+    the copies of a snapshot are removed as soon as its last scheduled chunk is done."""
 
     def __init__(self):
         self.dir = tempfile.mkdtemp(prefix="hwv-c18-", dir=os.environ.get("TMPDIR", "/tmp"))
@@ -293,6 +308,13 @@ class Pool:
         self.lock = threading.Lock()
 
     def acquire(self, snap):
+        with snap.lock:
+            if getattr(snap, "sem", None) is None:
+                # first use: one copy to count files, then decide how many copies may coexist
+                snap.sem = threading.Semaphore(1)
+                snap.maxc = 1
+                snap.counted = False
+        snap.sem.acquire()
         with snap.lock:
             if snap.free:
                 return snap.free.pop()
@@ -303,14 +325,30 @@ class Pool:
         os.makedirs(os.path.join(top, "root"))
         os.makedirs(os.path.join(top, "stash"))
         subprocess.run(["tar", "xjf", snap.tarball, "-C", os.path.join(top, "root")], check=True)
+        with snap.lock:
+            if not snap.counted:
+                snap.counted = True
+                nfiles = sum(len(f) + len(d) for _, d, f in os.walk(os.path.join(top, "root")))
+                extra = max(0, min(5, 12000 // max(nfiles, 1)) - 1)
+                snap.maxc += extra
+                for _ in range(extra):
+                    snap.sem.release()
         return top
 
     def release(self, snap, top, dirty=False):
         if dirty:
             shutil.rmtree(top, ignore_errors=True)
-            return
+        else:
+            with snap.lock:
+                snap.free.append(top)
+        snap.sem.release()
+
+    def drop(self, snap):
+        """Remove the idle copies of a snapshot (its scheduled work is finished)."""
         with snap.lock:
-            snap.free.append(top)
+            tops, snap.free = snap.free, []
+        for t in tops:
+            shutil.rmtree(t, ignore_errors=True)
 
     def close(self):
         shutil.rmtree(self.dir, ignore_errors=True)
@@ -523,8 +561,7 @@ def verdicts(r):
             fields = sorted(set(re.findall(r"(\w+)=[^ ]*->", l)))
             out.append(("nondeterministic:" + ",".join(fields), "two loads of the same snapshot and configuration differ: " + l[:400]))
         elif l.startswith("same M X DIFF"):
-            fields = sorted(set(re.findall(r"(\w+)=[^ ]*->", l))) or ["structure"]
-            out.append(("xml-reload:" + ",".join(fields), "topology reloaded from its own XML export differs: " + l[:400]))
+            out.append((xml_diff_key(l), "topology reloaded from its own XML export differs: " + l[:500]))
         elif l.startswith("disallowed VIOLATION"):
             clauses = sorted(set(re.findall(r"([a-z-]+)@", l)))
             out.append(("disallowed:" + ",".join(clauses), "INCLUDE_DISALLOWED view vs default view: " + l[:300]))
@@ -535,6 +572,26 @@ def verdicts(r):
         if d_ok and not i_ok:
             out.append(("disallowed:incl-load-fails", "the default load succeeds but the INCLUDE_DISALLOWED load of the same source fails"))
     return out
+
+
+def xml_diff_key(l):
+    """same M X DIFF nlines=a/b | O<id> ty=<t> f=a->f=b ... | ...   -> a key naming the defect class"""
+    parts = [p.strip() for p in l.split("|")[1:]]
+    if not parts:
+        return "xml-reload:structure"
+    classes = set()
+    for p in parts:
+        m = re.match(r"O\d+ ty=(\d+) (.*)$", p)
+        if not m:
+            classes.add("structure")
+            continue
+        ty = int(m.group(1))
+        fields = sorted(set(re.findall(r"(\w+)=[^ ]*->", m.group(2))))
+        if ty in (14, 15) and fields == ["ccs"]:
+            classes.add("memory-child-complete-cpuset")
+        else:
+            classes.add("%s@type%d" % ("+".join(fields) or "line", ty))
+    return "xml-reload:" + ",".join(sorted(classes))
 
 
 class SnapSearch:
@@ -554,9 +611,23 @@ class SnapSearch:
                 chunks.append(items[k:k + size])
         # longest first
         chunks.sort(key=lambda ch: -len(ch))
+        pending = {}
+        for ch in chunks:
+            pending[ch[0][1][0].rel] = pending.get(ch[0][1][0].rel, 0) + 1
+        plock = threading.Lock()
+
+        def work(ch):
+            r = run_chunk(self.pool, self.snapexe, self.drv, ch)
+            snap = ch[0][1][0]
+            with plock:
+                pending[snap.rel] -= 1
+                last = pending[snap.rel] == 0
+            if last:
+                self.pool.drop(snap)
+            return r
         results = {}
         with cf.ThreadPoolExecutor(max_workers=C.NCPU) as ex:
-            for r in ex.map(lambda ch: run_chunk(self.pool, self.snapexe, self.drv, ch), chunks):
+            for r in ex.map(work, chunks):
                 results.update(r)
         return [results.get(i) for i in range(len(cases))]
 
@@ -735,8 +806,13 @@ def check(run, replay=None):
                 raise RuntimeError("replay file holds neither a parse: nor a snapshot: case")
             check_snapshots(run, snapexe, drv, replay_case=case)
     else:
+        import time
+        t0 = time.time()
         run.cov["parser_cases"] = check_parsers(run, par, drv)
+        t1 = time.time()
         run.cov["snapshot_cases"] = check_snapshots(run, snapexe, drv)
+        run.cov["phase_wall_s"] = {"parsers": round(t1 - t0, 1), "snapshots": round(time.time() - t1, 1)}
+        C.log("[c18] parsers %.1fs snapshots %.1fs" % (t1 - t0, time.time() - t1))
     run.cov["rule"] = ("parser case = (parser, file content), non-trivial = parsed; snapshot case = (snapshot, components, env, filters, flags, removal set) "
                        "executed as: load + dump + topology_check + XML round trip, second load, load with INCLUDE_DISALLOWED toggled; non-trivial = main load succeeded")
     run.assumptions += [
